@@ -14,7 +14,8 @@ Inductive aop : Type :=
 | ACopy (dst src : string)         (* if src in bindings: bindings[dst] = bindings[src] *)
 | ADel (k : string)                (* delete bindings[k] *)
 | ADelAll                          (* delete every binding *)
-| APoke (k : string).              (* mutate the value of bindings[k] in place, below the top level *)
+| APoke (k : string)               (* mutate the value of bindings[k] in place, below the top level *)
+| ACountGlobal (k : string).       (* Math.vc = (Math.vc || 0) + 1; bindings[k] = Math.vc  -- a fresh runtime: always 1 *)
 
 Inductive aterm : Type :=
 | TRetBindings                     (* return _.bindings *)
@@ -75,6 +76,7 @@ Fixpoint run_ops (ops : list aop) (b : option bindings) (em : list json)
                   | Some v => run_ops r (Some (bset k (poke v) bs)) em
                   | None => run_ops r b em
                   end
+              | ACountGlobal k => run_ops r (Some (bset k (JNum 4) bs)) em
               end
           end
       end
